@@ -226,6 +226,15 @@ def handle (j : Json) : R Json := do
     let tsOk : Bool ← if tsj.isNull then pure false else (fun ts => FloatOps.le ts clock) <$> floatOfJson tsj
     return Json.mkObj [("ok", Json.bool (driverOk && cacheOk && tsOk)),
       ("which", if !driverOk then "driver" else if !cacheOk then "cache" else if !tsOk then "timestamp" else Json.null)]
+  | "e2e" =>
+    -- the model's account of one `setParameter`: what the driver gets and what the cache holds afterwards
+    let dt ← dtypeOfJson (← fld j "dt")
+    let cdt ← dtypeOfJson (← fld j "cdt")
+    let prev ← optPVal (← fld j "prev")
+    let ret ← optPVal (← fld j "ret")
+    match writeTrace dt cdt prev (← pvalOfJson (← fld j "passed")) ret with
+    | some tr => return Json.mkObj [("got", pvalToJson tr.driverGot), ("cache", pvalToJson tr.cached)]
+    | none => return Json.mkObj [("got", Json.null), ("cache", Json.null)]
   | "judge_read_error" =>
     -- a driver raised an error of class `pycls` (error name `name`) with `text`: the client's read must hand back an
     -- error object of that class, that name and that text, usable and formatting as `SECoPError.format` prescribes
